@@ -28,7 +28,7 @@ ASSUMPTIONS = [
     'raffle: a VouchingParameters constant whose checking half equals CheckingParameters vouches values that check',
 ]
 
-FLOORS = {'R19.1': 3, 'R19.2': 3, 'R19.3': 3, 'R19.4': 3, 'R19.5': 1, 'R19.6': 29, 'R19.7': 3, 'R19.8': 2}
+FLOORS = {'R19.1': 3, 'R19.2': 3, 'R19.3': 3, 'R19.4': 3, 'R19.5': 1, 'R19.6': 1, 'R19.7': 3, 'R19.8': 2}
 
 
 class NV:
